@@ -23,7 +23,7 @@ import (
 type vHost struct{ host.Host }
 
 func (vHost) Peerstore() peerstore.Peerstore { return nil }
-func (vHost) ID() peer.ID                     { return "subscriber-host" }
+func (vHost) ID() peer.ID                    { return "subscriber-host" }
 
 type vPeerstore struct{ peerstore.Peerstore }
 
